@@ -130,7 +130,8 @@ def same_entry(a, b):
             if len(u1) != len(u2) or not all(close(p, q, 5.1e-3) for p, q in zip(u1, u2)):
                 return 'displacement parameters'
             return None
-        if len(u1) != len(u2) or not all(close(p, q, 1e-5) for p, q in zip(u1, u2)):
+        # values that are not written are zero: an atom whose U22..U12 vanish at the written precision may be written with one U value
+        if (len(u1) != len(u2) and max(len(u1), len(u2)) > 6) or not all(close(p, q, 1e-5) for p, q in zip((list(u1) + [0.0] * 6)[:6], (list(u2) + [0.0] * 6)[:6])):
             return 'displacement parameters'
         return None
     if a[0] in ('TITL', 'SFAC', 'SYMM?'):
@@ -195,7 +196,7 @@ def covering_files(rng):
                 yield '\n'.join(HEAD + ATOMS[:2] + [' '.join(toks)] + ATOMS[2:] + TAIL) + '\n', kw
     special = [
         ['UNIT 1200 2400 16 2'], ['UNIT 16.5 20 4 2'], ['ACTA NOHKL'], ['ACTA 50 NOHKL'], ['ACTA'], ['SIZE 0.1'], ['SIZE 0.1 0.2'], ['SIZE 0.12 0.23 0.34'],
-        ['WGHT 0.05 0 0.1 0 0 0.23333'], ['WGHT 0.05 0.3 0 0 0 0.5'], ['WGHT 0.1'], ['WGHT'], ['STIR 1.5'], ['STIR 1.5 0.02'],
+        ['WGHT 0.05 0 0.1 0 0 0.23333'], ['WGHT 0.05 0.3 0 0 0 0.5'], ['WGHT 0.1'], ['WGHT'], ['STIR 1.5'], ['STIR 1.5 0.02'], ['STIR 0 0.02'], ['STIR 0'], ['DAMP 0 0'], ['ISOR 0 0 C1 O1'], ['SWAT 0 0'], ['SHEL 0 0'], ['C9 1 0.5 0.5 0.5 11.0 0.05 0.000004 0.000003 0.000004 -0.000004 0.000004'],
         ['TEMP -173.15'], ['DAMP 0.5 0'], ['HKLF 4 1 0 1 0 1 0 0 0 0 -1 0.5 2'], ['TWIN -1 0 0 0 -1 0 0 0 1 -3'], ['BASF 0.2 0.1'],
         ['EQIV $1 -x+1, -y, -z', 'HTAB C1 O1_$1', 'RTAB Dist C1 O1_$1'], ['FREE C1 O1'], ['MPLA 4 C1 O1 N1 C2'], ['CONN 4 1.8 C1'], ['SUMP 1.0 0.01 1.0 2 1.0 3'],
         ['DISP C 0.0033 0.0016 11.5'], ['MOLE 1'], ['TIME 5'], ['NEUT'], ['ANIS'], ['ANIS 3'], ['ANIS C1 O1'], ['HFIX 43 C1'], ['RESI 1 TOL', 'C9 1 0.5 0.5 0.5 11.0 0.04', 'RESI 0'],
